@@ -7,9 +7,11 @@ import Mathlib.Data.List.Perm.Basic
 Proved here (for every input): sorting and flattening never lose, duplicate or invent a
 copy (`flatten_perm`, `final_arrangement_perm`), the "non-empty side" repair keeps all items
 (`phaseFix_perm`), placeholders are added exactly for missing haplotypes
-(`placeholders_exact`).  The full statement `diplotype_partition` (every phase of the
-heuristic preserves the multiset of copy indices) is stated at the end; see there for its
-status.
+(`placeholders_exact`), and the end-to-end statement `diplotype_partition`: every phase of the
+heuristic (tandem pairing, even split, duplicate and rest balancing) preserves the multiset of
+copy indices still to place or placed (`content`), the last phase leaves nothing behind
+(`phaseRest_empty`, from the uniqueness of the dictionary keys), hence the reported diplotype
+is a permutation of the called copies plus the exact placeholders.
 -/
 
 namespace Aldy
@@ -194,6 +196,497 @@ theorem placeholders_exact (I : DipIn) :
         have : 2 - I.majors.length = 0 := by omega
         simpa [this] using hbase
 
+/-! ### every phase keeps the copies: the end-to-end statement -/
+
+def itemsFlat (l : List Item) : List Int := l.flatMap Item.flat
+
+/-- every copy index the arrangement still has to place or has placed -/
+def content (s : DipState) : List Int := dictFlat s.dict ++ (itemsFlat s.d0 ++ itemsFlat s.d1)
+
+theorem itemsFlat_append (a b : List Item) : itemsFlat (a ++ b) = itemsFlat a ++ itemsFlat b := by
+  simp [itemsFlat]
+
+theorem itemsFlat_ones (l : List Int) : itemsFlat (l.map Item.one) = l := by
+  induction l with
+  | nil => rfl
+  | cons x xs ih => simp only [itemsFlat, List.map_cons, List.flatMap_cons, Item.flat] at ih ⊢; rw [ih]; rfl
+
+theorem addTo_dict (s : DipState) (k : Nat) (items : List Item) : (s.addTo k items).dict = s.dict := by
+  unfold DipState.addTo; split <;> rfl
+
+theorem addTo_sides (s : DipState) (k : Nat) (items : List Item) :
+    (itemsFlat (s.addTo k items).d0 ++ itemsFlat (s.addTo k items).d1).Perm
+      (itemsFlat s.d0 ++ itemsFlat s.d1 ++ itemsFlat items) := by
+  unfold DipState.addTo
+  split
+  · simp only [itemsFlat_append]
+    rw [List.perm_iff_count]; intro a; simp only [List.count_append]; omega
+  · simp only [itemsFlat_append]
+    rw [List.perm_iff_count]; intro a; simp only [List.count_append]; omega
+
+theorem dictGet_ne_nil_hasKey (d : Dict) (k : String) (h : dictGet d k ≠ []) : hasKey d k = true := by
+  induction d with
+  | nil => simp [dictGet] at h
+  | cons e es ih =>
+    unfold dictGet at h
+    by_cases he : (e.1 == k) = true
+    · simp [hasKey, he]
+    · have he' : (e.1 == k) = false := by simpa using he
+      simp only [he', Bool.false_eq_true, if_false] at h
+      simp only [hasKey, List.any_cons, he', Bool.false_or]
+      exact ih h
+
+/-- moving all copies stored under one key to a side keeps the content -/
+theorem move_key_content (st : DipState) (key : String) (k dc' : Nat) (hne : dictGet st.dict key ≠ []) :
+    (content { (st.addTo k ((dictGet st.dict key).map Item.one)) with
+                 dc := dc', dict := dictSet (st.addTo k ((dictGet st.dict key).map Item.one)).dict key [] }).Perm (content st) := by
+  have hk := dictGet_ne_nil_hasKey st.dict key hne
+  have h1 := dictSet_flat st.dict key [] hk
+  have h2 := addTo_sides st k ((dictGet st.dict key).map Item.one)
+  rw [itemsFlat_ones] at h2
+  simp only [content, addTo_dict]
+  simp only [List.append_nil] at h1
+  rw [List.perm_iff_count] at h1 h2 ⊢
+  intro a
+  have := h1 a; have := h2 a
+  simp only [List.count_append] at *
+  omega
+
+
+theorem foldl_content {α : Type} (f : DipState → α → DipState) (h : ∀ st e, (content (f st e)).Perm (content st))
+    (es : List α) (s : DipState) : (content (es.foldl f s)).Perm (content s) := by
+  induction es generalizing s with
+  | nil => exact List.Perm.refl _
+  | cons e es ih => exact (ih (f s e)).trans (h s e)
+
+theorem phaseDup_content (s : DipState) : (content (phaseDup s)).Perm (content s) := by
+  unfold phaseDup
+  apply foldl_content
+  intro st e
+  dsimp only
+  split
+  · rename_i hlen
+    apply move_key_content
+    intro h0; rw [h0] at hlen; simp at hlen
+  · exact List.Perm.refl _
+
+theorem phaseRest_content (s : DipState) : (content (phaseRest s)).Perm (content s) := by
+  unfold phaseRest
+  apply foldl_content
+  intro st e
+  dsimp only
+  split
+  · rename_i hne
+    apply move_key_content
+    intro h0; rw [h0] at hne; simp at hne
+  · exact List.Perm.refl _
+
+theorem phaseEven_content (s : DipState) : (content (phaseEven s)).Perm (content s) := by
+  unfold phaseEven
+  split
+  · rename_i k items hd
+    split
+    · have h1 := addTo_sides s s.dc ((items.take (items.length / 2)).map Item.one)
+      have h2 := addTo_sides (s.addTo s.dc ((items.take (items.length / 2)).map Item.one)) (s.dc + 1)
+        ((items.drop (items.length / 2)).map Item.one)
+      rw [itemsFlat_ones] at h1 h2
+      have h3 : (items.take (items.length / 2) ++ items.drop (items.length / 2)) = items := List.take_append_drop _ _
+      simp only [content, hd, dictFlat, List.flatMap_cons, List.flatMap_nil, List.append_nil, List.nil_append]
+      rw [List.perm_iff_count] at h1 h2 ⊢
+      intro a
+      have := h1 a; have := h2 a
+      have h4 : List.count a items = List.count a (items.take (items.length / 2)) + List.count a (items.drop (items.length / 2)) := by
+        conv_lhs => rw [← h3]
+        rw [List.count_append]
+      simp only [List.count_append] at *
+      omega
+    · exact List.Perm.refl _
+  · exact List.Perm.refl _
+
+
+theorem hasKey_dictSet (d : Dict) (k k' : String) (v : List Int) : hasKey (dictSet d k v) k' = hasKey d k' := by
+  induction d with
+  | nil => rfl
+  | cons e es ih =>
+    unfold dictSet
+    split
+    · simp [hasKey]
+    · simp only [hasKey, List.any_cons] at ih ⊢; rw [ih]
+
+theorem dictGet_dictSet_ne (d : Dict) (k k' : String) (v : List Int) (h : k ≠ k') :
+    dictGet (dictSet d k v) k' = dictGet d k' := by
+  induction d with
+  | nil => rfl
+  | cons e es ih =>
+    unfold dictSet
+    by_cases he : (e.1 == k) = true
+    · have hek : e.1 = k := by simpa using he
+      have : (e.1 == k') = false := by rw [hek]; simpa using h
+      simp only [he, if_true, dictGet, this, Bool.false_eq_true, if_false]
+    · have he' : (e.1 == k) = false := by simpa using he
+      simp only [he', Bool.false_eq_true, if_false, dictGet, ih]
+
+theorem tandemLoop_content (ta tb : String) (hne : ta ≠ tb) (fuel : Nat) (s : DipState) :
+    (content (tandemLoop ta tb fuel s)).Perm (content s) := by
+  induction fuel generalizing s with
+  | zero => exact List.Perm.refl _
+  | succ fuel ih =>
+    unfold tandemLoop
+    simp only
+    split
+    · simp only [content, dictTouch_flat]
+      exact List.Perm.refl _
+    · split
+      · rename_i a as b bs hga hgb
+        refine (ih _).trans ?_
+        have hka : hasKey (dictTouch (dictTouch s.dict ta) tb) ta = true :=
+          dictGet_ne_nil_hasKey _ _ (by rw [hga]; simp)
+        have hkb : hasKey (dictTouch (dictTouch s.dict ta) tb) tb = true :=
+          dictGet_ne_nil_hasKey _ _ (by rw [hgb]; simp)
+        have h1 := dictSet_flat (dictTouch (dictTouch s.dict ta) tb) ta as hka
+        have h2 := dictSet_flat (dictSet (dictTouch (dictTouch s.dict ta) tb) ta as) tb bs (by rw [hasKey_dictSet]; exact hkb)
+        rw [dictGet_dictSet_ne _ _ _ _ hne, hgb] at h2
+        rw [hga] at h1
+        have h3 := addTo_sides { s with dict := dictSet (dictSet (dictTouch (dictTouch s.dict ta) tb) ta as) tb bs } s.dc [Item.pair a b]
+        have hflat : dictFlat (dictTouch (dictTouch s.dict ta) tb) = dictFlat s.dict := by
+          rw [dictTouch_flat, dictTouch_flat]
+        simp only [content, addTo_dict]
+        rw [← hflat]
+        rw [List.perm_iff_count] at h1 h2 h3 ⊢
+        intro x
+        have := h1 x; have := h2 x; have := h3 x
+        simp only [List.count_append, List.count_cons, itemsFlat, List.flatMap_cons, List.flatMap_nil, Item.flat,
+          List.append_nil, List.count_nil] at *
+        omega
+      · simp only [content, dictTouch_flat]
+        exact List.Perm.refl _
+
+theorem phaseTandem_content (I : DipIn) (hne : ∀ t ∈ I.tandems, t.1 ≠ t.2) (s : DipState) :
+    (content (phaseTandem I s)).Perm (content s) := by
+  unfold phaseTandem
+  split
+  · have : ∀ (ts : List (String × String)), (∀ t ∈ ts, t.1 ≠ t.2) → ∀ s : DipState,
+        (content (ts.foldl (fun st t => tandemLoop t.1 t.2 (I.majors.length + 2) st) s)).Perm (content s) := by
+      intro ts
+      induction ts with
+      | nil => intro _ s; exact List.Perm.refl _
+      | cons t ts ih =>
+        intro h s
+        simp only [List.foldl_cons]
+        exact (ih (fun x hx => h x (by simp [hx])) _).trans (tandemLoop_content t.1 t.2 (h t (by simp)) _ s)
+    exact this I.tandems hne s
+  · exact List.Perm.refl _
+
+
+def dkeys (d : Dict) : List String := d.map (·.1)
+
+theorem dkeys_dictSet (d : Dict) (k : String) (v : List Int) : dkeys (dictSet d k v) = dkeys d := by
+  induction d with
+  | nil => rfl
+  | cons e es ih =>
+    unfold dictSet
+    split
+    · rfl
+    · simp only [dkeys, List.map_cons] at ih ⊢; rw [ih]
+
+theorem dictGet_dictSet_same (d : Dict) (k : String) (v : List Int) (h : hasKey d k = true) :
+    dictGet (dictSet d k v) k = v := by
+  induction d with
+  | nil => simp [hasKey] at h
+  | cons e es ih =>
+    unfold dictSet
+    by_cases he : (e.1 == k) = true
+    · simp only [he, if_true, dictGet]
+    · have he' : (e.1 == k) = false := by simpa using he
+      simp only [hasKey, List.any_cons, he', Bool.false_or] at h
+      simp only [he', Bool.false_eq_true, if_false, dictGet]
+      exact ih h
+
+theorem dictGet_of_not_hasKey (d : Dict) (k : String) (h : hasKey d k = false) : dictGet d k = [] := by
+  induction d with
+  | nil => rfl
+  | cons e es ih =>
+    simp only [hasKey, List.any_cons, Bool.or_eq_false_iff] at h
+    simp only [dictGet, h.1, Bool.false_eq_true, if_false]
+    exact ih h.2
+
+/-- setting a key to the empty list leaves no copies under that key and touches no other key -/
+theorem dictGet_after_clear (d : Dict) (k k' : String) :
+    dictGet (dictSet d k []) k' = if k = k' then [] else dictGet d k' := by
+  by_cases h : k = k'
+  · subst h
+    simp only [if_true]
+    by_cases hk : hasKey d k = true
+    · exact dictGet_dictSet_same d k [] hk
+    · have hk' : hasKey d k = false := by simpa using hk
+      have : hasKey (dictSet d k []) k = false := by rw [hasKey_dictSet]; exact hk'
+      exact dictGet_of_not_hasKey _ _ this
+  · simp only [h, if_false]
+    exact dictGet_dictSet_ne d k k' [] h
+
+/-- the step of `phaseRest` (and of `phaseDup`, with another guard) -/
+def clearStep (guard : List Int → Bool) (st : DipState) (e : String × List Int) : DipState :=
+  let items := dictGet st.dict e.1
+  if guard items then
+    let k := balance st
+    let st' := st.addTo k (items.map Item.one)
+    { st' with dc := k + 1, dict := dictSet st'.dict e.1 [] }
+  else st
+
+theorem clearStep_get (guard : List Int → Bool) (st : DipState) (e : String × List Int) (k : String) :
+    dictGet (clearStep guard st e).dict k = if guard (dictGet st.dict e.1) ∧ e.1 = k then [] else dictGet st.dict k := by
+  unfold clearStep
+  dsimp only
+  by_cases hg : guard (dictGet st.dict e.1) = true
+  · simp only [hg, if_true, addTo_dict, true_and]
+    exact dictGet_after_clear _ _ _
+  · simp only [hg, Bool.false_eq_true, if_false, false_and]
+
+theorem clearStep_keys (guard : List Int → Bool) (st : DipState) (e : String × List Int) :
+    dkeys (clearStep guard st e).dict = dkeys st.dict := by
+  unfold clearStep
+  dsimp only
+  split
+  · simp only [addTo_dict, dkeys_dictSet]
+  · rfl
+
+theorem phaseRest_eq (s : DipState) : phaseRest s = s.dict.foldl (clearStep fun items => !items.isEmpty) s := rfl
+
+/-- after the last phase nothing is left under any key of the dictionary -/
+theorem phaseRest_clears (s : DipState) (k : String) (hk : k ∈ dkeys s.dict) :
+    dictGet (phaseRest s).dict k = [] := by
+  rw [phaseRest_eq]
+  have key : ∀ (es : List (String × List Int)) (st : DipState),
+      (k ∈ es.map (·.1) ∨ dictGet st.dict k = []) →
+      dictGet (es.foldl (clearStep fun items => !items.isEmpty) st).dict k = [] := by
+    intro es
+    induction es with
+    | nil =>
+      intro st h
+      rcases h with h | h
+      · simp at h
+      · exact h
+    | cons e es ih =>
+      intro st h
+      simp only [List.foldl_cons]
+      apply ih
+      by_cases hin : k ∈ es.map (·.1)
+      · exact Or.inl hin
+      · right
+        rw [clearStep_get]
+        rcases h with h | h
+        · simp only [List.map_cons, List.mem_cons] at h
+          rcases h with h | h
+          · subst h
+            by_cases hg : (!(dictGet st.dict e.1).isEmpty) = true
+            · simp [hg]
+            · have : dictGet st.dict e.1 = [] := by simpa using hg
+              simp [this]
+          · exact absurd h hin
+        · split
+          · rfl
+          · exact h
+  exact key s.dict s (Or.inl hk)
+
+theorem phaseRest_keys (s : DipState) : dkeys (phaseRest s).dict = dkeys s.dict := by
+  rw [phaseRest_eq]
+  have : ∀ (es : List (String × List Int)) (st : DipState),
+      dkeys (es.foldl (clearStep fun items => !items.isEmpty) st).dict = dkeys st.dict := by
+    intro es
+    induction es with
+    | nil => intro st; rfl
+    | cons e es ih => intro st; simp only [List.foldl_cons]; rw [ih, clearStep_keys]
+  exact this s.dict s
+
+theorem dictGet_first (d : Dict) (h : (dkeys d).Nodup) (e : String × List Int) (he : e ∈ d) : dictGet d e.1 = e.2 := by
+  induction d with
+  | nil => cases he
+  | cons x xs ih =>
+    simp only [dkeys, List.map_cons, List.nodup_cons] at h
+    rcases List.mem_cons.mp he with rfl | he
+    · simp [dictGet]
+    · have hne : (x.1 == e.1) = false := by
+        have : x.1 ≠ e.1 := by
+          intro hx
+          exact h.1 (hx ▸ List.mem_map.mpr ⟨e, he, rfl⟩)
+        simpa using this
+      simp only [dictGet, hne, Bool.false_eq_true, if_false]
+      exact ih h.2 he
+
+theorem phaseRest_empty (s : DipState) (h : (dkeys s.dict).Nodup) : dictFlat (phaseRest s).dict = [] := by
+  have hk := phaseRest_keys s
+  have hnd : (dkeys (phaseRest s).dict).Nodup := by rw [hk]; exact h
+  simp only [dictFlat, List.flatMap_eq_nil_iff]
+  intro e he
+  have h1 := dictGet_first _ hnd e he
+  have h2 := phaseRest_clears s e.1 (by rw [← hk]; exact List.mem_map.mpr ⟨e, he, rfl⟩)
+  rw [← h1, h2]
+
+
+theorem dkeys_dictAppend (d : Dict) (k : String) (v : Int) :
+    dkeys (dictAppend d k v) = if hasKey d k then dkeys d else dkeys d ++ [k] := by
+  induction d with
+  | nil => simp [dictAppend, dkeys, hasKey]
+  | cons e es ih =>
+    unfold dictAppend
+    by_cases he : (e.1 == k) = true
+    · simp [he, dkeys, hasKey]
+    · have he' : (e.1 == k) = false := by simpa using he
+      simp only [he', Bool.false_eq_true, if_false, dkeys, List.map_cons, hasKey, List.any_cons, Bool.false_or] at ih ⊢
+      rw [ih]
+      split <;> rename_i h <;> simp [h]
+
+theorem dkeys_dictTouch (d : Dict) (k : String) :
+    dkeys (dictTouch d k) = if hasKey d k then dkeys d else dkeys d ++ [k] := by
+  induction d with
+  | nil => simp [dictTouch, dkeys, hasKey]
+  | cons e es ih =>
+    unfold dictTouch
+    by_cases he : (e.1 == k) = true
+    · simp [he, dkeys, hasKey]
+    · have he' : (e.1 == k) = false := by simpa using he
+      simp only [he', Bool.false_eq_true, if_false, dkeys, List.map_cons, hasKey, List.any_cons, Bool.false_or] at ih ⊢
+      rw [ih]
+      split <;> rename_i h <;> simp [h]
+
+theorem hasKey_iff_mem (d : Dict) (k : String) : hasKey d k = true ↔ k ∈ dkeys d := by
+  simp only [hasKey, dkeys, List.any_eq_true, List.mem_map, beq_iff_eq]
+
+theorem nodup_add_key (d : Dict) (k : String) (h : (dkeys d).Nodup) :
+    (if hasKey d k then dkeys d else dkeys d ++ [k]).Nodup := by
+  by_cases hk : hasKey d k = true
+  · simp [hk, h]
+  · have hk' : hasKey d k = false := by simpa using hk
+    simp only [hk', Bool.false_eq_true, if_false]
+    have : k ∉ dkeys d := by rw [← hasKey_iff_mem]; simp [hk']
+    rw [List.nodup_append]
+    refine ⟨h, by simp, ?_⟩
+    intro a ha b hb
+    simp only [List.mem_singleton] at hb
+    subst hb
+    intro hab
+    exact this (hab ▸ ha)
+
+theorem nodup_dictAppend (d : Dict) (k : String) (v : Int) (h : (dkeys d).Nodup) : (dkeys (dictAppend d k v)).Nodup := by
+  rw [dkeys_dictAppend]; exact nodup_add_key d k h
+
+theorem nodup_dictTouch (d : Dict) (k : String) (h : (dkeys d).Nodup) : (dkeys (dictTouch d k)).Nodup := by
+  rw [dkeys_dictTouch]; exact nodup_add_key d k h
+
+theorem phaseGroup_nodup (I : DipIn) : (dkeys (phaseGroup I)).Nodup := by
+  have hfold : ∀ (l : List (String × Nat)) (acc : Dict), (dkeys acc).Nodup →
+      (dkeys (l.foldl (fun acc mi => dictAppend acc (realKey mi.1) (mi.2 : Int)) acc)).Nodup := by
+    intro l
+    induction l with
+    | nil => intro acc h; exact h
+    | cons x xs ih => intro acc h; exact ih _ (nodup_dictAppend _ _ _ h)
+  have hbase := hfold I.majors.zipIdx [] (by simp [dkeys])
+  unfold phaseGroup
+  dsimp only
+  split
+  · split
+    · exact nodup_dictAppend _ _ _ (nodup_dictAppend _ _ _ hbase)
+    · split
+      · exact nodup_dictAppend _ _ _ hbase
+      · exact hbase
+  · exact hbase
+
+theorem tandemLoop_nodup (ta tb : String) (fuel : Nat) (s : DipState) (h : (dkeys s.dict).Nodup) :
+    (dkeys (tandemLoop ta tb fuel s).dict).Nodup := by
+  induction fuel generalizing s with
+  | zero => exact h
+  | succ fuel ih =>
+    unfold tandemLoop
+    simp only
+    split
+    · exact nodup_dictTouch _ _ h
+    · split
+      · apply ih
+        simp only [addTo_dict, dkeys_dictSet]
+        exact nodup_dictTouch _ _ (nodup_dictTouch _ _ h)
+      · exact nodup_dictTouch _ _ (nodup_dictTouch _ _ h)
+
+theorem phaseTandem_nodup (I : DipIn) (s : DipState) (h : (dkeys s.dict).Nodup) : (dkeys (phaseTandem I s).dict).Nodup := by
+  unfold phaseTandem
+  split
+  · have : ∀ (ts : List (String × String)) (s : DipState), (dkeys s.dict).Nodup →
+        (dkeys (ts.foldl (fun st t => tandemLoop t.1 t.2 (I.majors.length + 2) st) s).dict).Nodup := by
+      intro ts
+      induction ts with
+      | nil => intro s h; exact h
+      | cons t ts ih => intro s h; simp only [List.foldl_cons]; exact ih _ (tandemLoop_nodup _ _ _ _ h)
+    exact this _ _ h
+  · exact h
+
+theorem phaseEven_nodup (s : DipState) (h : (dkeys s.dict).Nodup) : (dkeys (phaseEven s).dict).Nodup := by
+  unfold phaseEven
+  split
+  · split
+    · simp [dkeys]
+    · exact h
+  · exact h
+
+theorem phaseDup_nodup (s : DipState) (h : (dkeys s.dict).Nodup) : (dkeys (phaseDup s).dict).Nodup := by
+  unfold phaseDup
+  have : ∀ (es : List (String × List Int)) (st : DipState),
+      dkeys (es.foldl (fun st e =>
+        let items := dictGet st.dict e.1
+        if items.length > 1 then
+          let k := balance st
+          let st' := st.addTo k (items.map Item.one)
+          { st' with dc := k + 1, dict := dictSet st'.dict e.1 [] }
+        else st) st).dict = dkeys st.dict := by
+    intro es
+    induction es with
+    | nil => intro st; rfl
+    | cons e es ih =>
+      intro st
+      simp only [List.foldl_cons]
+      rw [ih]
+      split
+      · simp only [addTo_dict, dkeys_dictSet]
+      · rfl
+  rw [this]; exact h
+
+/-- **diplotype_partition** the reported diplotype shows exactly the called copies `0..n-1`, plus
+deletion placeholders for missing haplotypes (two when nothing is called, one when a single
+copy is called, for genes with a whole-gene deletion allele): through grouping, tandem pairing,
+even split, duplicate and rest balancing, the non-empty repair, flattening and the final order
+no copy is lost, duplicated or invented.  Hypothesis: a catalogued tandem names two different
+allele numbers (for `(x, x)` the code itself deletes two entries per pair or raises). -/
+theorem diplotype_partition (I : DipIn) (hne : ∀ t ∈ I.tandems, t.1 ≠ t.2) :
+    ((estimateDiplotype I).flatten).Perm
+      ((List.range I.majors.length).map Int.ofNat ++
+        (match I.delAllele with
+         | some _ => List.replicate (2 - I.majors.length) (-1)
+         | none => [])) := by
+  refine List.Perm.trans ?_ (placeholders_exact I)
+  set s0 : DipState := { dict := phaseGroup I, d0 := [], d1 := [], dc := 0 } with hs0
+  set s := phaseRest (phaseDup (phaseEven (phaseTandem I s0))) with hs
+  have hnd : (dkeys (phaseDup (phaseEven (phaseTandem I s0))).dict).Nodup :=
+    phaseDup_nodup _ (phaseEven_nodup _ (phaseTandem_nodup I s0 (phaseGroup_nodup I)))
+  have hempty : dictFlat s.dict = [] := phaseRest_empty _ hnd
+  have hcontent : (content s).Perm (content s0) :=
+    (phaseRest_content _).trans ((phaseDup_content _).trans ((phaseEven_content _).trans (phaseTandem_content I hne s0)))
+  have hc0 : content s0 = dictFlat (phaseGroup I) := by simp [content, hs0, itemsFlat]
+  have hcs : content s = itemsFlat (s.d0 ++ s.d1) := by simp [content, hempty, itemsFlat_append]
+  rw [hc0, hcs] at hcontent
+  refine List.Perm.trans ?_ hcontent
+  -- the output
+  have hout : estimateDiplotype I =
+      sortStable (fun x y => keysLt (x.map fun i => natKey (nameOf I i)) (y.map fun i => natKey (nameOf I i)))
+        [flatten I (phaseFix s).1, flatten I (phaseFix s).2] := rfl
+  rw [hout]
+  refine ((final_arrangement_perm I _ _).flatten).trans ?_
+  simp only [List.flatten_cons, List.flatten_nil, List.append_nil]
+  refine (List.Perm.append (flatten_perm I _) (flatten_perm I _)).trans ?_
+  have := phaseFix_perm s
+  have h2 : (itemsFlat ((phaseFix s).1 ++ (phaseFix s).2)).Perm (itemsFlat (s.d0 ++ s.d1)) :=
+    List.Perm.flatMap_right _ this
+  rw [itemsFlat_append] at h2
+  exact h2
+
+
 /-! ### Non-vacuity / concrete behaviour (kernel-evaluated) -/
 
 example : estimateDiplotype { majors := ["1", "2"], names := ["1", "2"], delAllele := some "5", tandems := [] } = [[0], [1]] := by
@@ -204,6 +697,13 @@ example : estimateDiplotype { majors := ["13", "1", "2"], names := ["13", "1", "
     = [[2], [0, 1]] := by decide +kernel
 example : estimateDiplotype { majors := [], names := [], delAllele := some "5", tandems := [] } = [[-1], [-1]] := by
   decide +kernel
+/-- the hypothesis of `diplotype_partition` holds for a catalogue with tandems, and the theorem applies -/
+example : ((estimateDiplotype { majors := ["13", "1", "2"], names := ["13", "1", "2"], delAllele := none, tandems := [("13", "1")] }).flatten).Perm
+    [0, 1, 2] := by
+  have := diplotype_partition { majors := ["13", "1", "2"], names := ["13", "1", "2"], delAllele := none, tandems := [("13", "1")] } (by decide)
+  have e : (List.range 3).map Int.ofNat = [0, 1, 2] := by decide
+  simpa [e] using this
 example : natKey "4+rs123" = [.text [], .num 4, .text ['+', 'r', 's'], .num 123] := by decide +kernel
 
 end Aldy
+
